@@ -3,6 +3,7 @@ import PsiProofs.Helper.C12_Rate
 import PsiProofs.Helper.C12_Restart
 import PsiProofs.Helper.C12_Annot
 import PsiProofs.Helper.C12_Concat
+import PsiProofs.Helper.C12_Channels
 /-!
 # C12 — streaming stages are chunk-invariant and keep a contiguous time base
 
@@ -533,6 +534,113 @@ theorem rms_blocks_concatenate_full_concat (blockFn : List α → Nat) (n : Nat)
   have := Nat.div_pos hlen hn
   omega
 
+/-! ## multi-channel (2-D) streams: a time column is a `Fin c → α`
+
+The chunk-invariance theorems above hold for any column type, hence for `c`-channel columns.  What is specific to 2-D
+— the per-channel filter state of `decimate` / `iirfilter`, per-channel block values, the matrix shapes of
+`mc_reference` — is proved here: channel `r` of the 2-D output is the **1-D whole-signal definition applied to
+channel `r`** of the input (channel independence), resp. the matrix–vector product of every column. -/
+
+/-- `decimate(q)` on `c` channels.  `lfilter(axis=-1)` filters the rows independently (`m.channels c`, one state per
+row; on an empty chunk it may report any state) and the stage starts every channel in the same state `zi`
+(`zf[np.newaxis]`).  For every chunking (empty chunks included): never raises, blocks contiguous from the input `s0`
+at rate `fs/q` with labels and metadata kept, and **channel `r` of the output is the 1-D definition on channel `r`**:
+filter row `r` of the whole signal from `zi`, keep every `q`-th sample of the complete multiples of `q`. -/
+theorem decimate_multichannel (m : Mealy α β S) (c : Nat)
+    (lf : (Fin c → S) → List (Fin c → α) → List (Fin c → β) × (Fin c → S)) (hlf : LfilterIs lf (m.channels c))
+    (zi : S) (divFs : ρ → Nat → ρ) (q : Nat) (hq : 0 < q) (ann : Ann ρ χ μ) (s : Int)
+    (cs : List (List (Fin c → α))) :
+    ∃ bs, outputs (runStage (decimateStep lf (fun _ => zi) divFs q) none (stream ann s cs)) = .ok bs
+      ∧ Contig 1 s bs ∧ (∀ b ∈ bs, b.ann = { ann with fs := divFs ann.fs q })
+      ∧ ∀ r : Fin c, (outData bs).map (· r)
+          = stride q ((m.run zi (cs.flatten.map (· r))).1.take ((cs.flatten.map (· r)).length / q * q)) := by
+  obtain ⟨bs, h1, h2⟩ := decimate_chunk_invariant (m.channels c) lf hlf (fun _ => zi) divFs q hq ann s cs
+  refine ⟨bs, h1, h2.contig, h2.ann, ?_⟩
+  intro r
+  rw [h2.data, ← stride_map, List.map_take, (Mealy.channels_run m c r cs.flatten (fun _ => zi)).1, List.length_map]
+
+/-- `iirfilter` on `c` channels: every channel starts in its own state `init (first sample of that channel)`
+(`zi * y[..., :1]`); channel `r` of the output is the 1-D filter run over channel `r` of the whole signal -/
+theorem iirfilter_multichannel (m : Mealy α β S) (c : Nat)
+    (lf : (Fin c → S) → List (Fin c → α) → List (Fin c → β) × (Fin c → S)) (hlf : LfilterIs lf (m.channels c))
+    (init : α → S) (ann : Ann ρ χ μ) (s : Int) (x0 : Fin c → α) (c0 : List (Fin c → α))
+    (cs : List (List (Fin c → α))) :
+    ∃ bs, outputs (runStage (iirStep lf (fun col r => init (col r))) none (stream ann s ((x0 :: c0) :: cs))) = .ok bs
+      ∧ Contig 1 s bs ∧ (∀ b ∈ bs, b.ann = ann)
+      ∧ ∀ r : Fin c, (outData bs).map (· r)
+          = (m.run (init (x0 r)) (((x0 :: c0) :: cs).flatten.map (· r))).1 := by
+  obtain ⟨bs, h1, h2⟩ := iirfilter_chunk_invariant (m.channels c) lf hlf (fun col r => init (col r)) ann s x0 c0 cs
+  refine ⟨bs, h1, h2.contig, h2.ann, ?_⟩
+  intro r
+  rw [h2.data, (Mealy.channels_run m c r _ _).1]
+
+/-- the selecting stages on `c` channels (`blocked`, `downsample` (2-D flag set), `discard`): channel `r` of the
+concatenated output is the 1-D whole-signal definition on channel `r` of the input -/
+theorem selection_stages_multichannel (c : Nat) (divFs : ρ → Nat → ρ) (p : Nat) (hp : 0 < p) (ann : Ann ρ χ μ) (s : Int)
+    (cs : List (List (Fin c → α))) :
+    (∃ bs, outputs (runStage (blockedStep p) {} (stream ann s cs)) = .ok bs ∧ Contig 1 s bs ∧ (∀ b ∈ bs, b.ann = ann)
+      ∧ ∀ r : Fin c, (outData bs).map (· r)
+          = (cs.flatten.map (· r)).take ((cs.flatten.map (· r)).length / p * p))
+    ∧ (∃ bs, outputs (runStage (downsampleStep divFs true p) {} (stream ann s cs)) = .ok bs ∧ Contig 1 s bs
+      ∧ (∀ b ∈ bs, b.ann = { ann with fs := divFs ann.fs p })
+      ∧ ∀ r : Fin c, (outData bs).map (· r)
+          = stride p ((cs.flatten.map (· r)).take ((cs.flatten.map (· r)).length / p * p)))
+    ∧ (∃ bs, outputs (runStage discardStep p (stream ann s cs)) = .ok bs ∧ Contig 1 (s + p) bs ∧ (∀ b ∈ bs, b.ann = ann)
+      ∧ ∀ r : Fin c, (outData bs).map (· r) = (cs.flatten.map (· r)).drop p) := by
+  refine ⟨?_, ?_, ?_⟩
+  · obtain ⟨bs, h1, h2, _⟩ := blocked_chunk_invariant p hp ann s cs
+    exact ⟨bs, h1, h2.contig, h2.ann, fun r => by rw [h2.data, List.map_take, List.length_map]⟩
+  · obtain ⟨bs, h1, h2⟩ := downsample_chunk_invariant divFs true p hp ann s cs
+    exact ⟨bs, h1, h2.contig, h2.ann, fun r => by rw [h2.data, ← stride_map, List.map_take, List.length_map]⟩
+  · obtain ⟨bs, h1, h2⟩ := discard_chunk_invariant p ann s cs
+    exact ⟨bs, h1, h2.contig, h2.ann, fun r => by rw [h2.data, List.map_drop]⟩
+
+/-- `rms(n)` on `c` channels: the block value is computed per channel (`np.mean(d ** 2, axis=-1) ** 0.5` keeps the
+channel axis); channel `r` of the output is the 1-D block function over the consecutive complete `n`-blocks of
+channel `r`.  `derivative` with a scalar `initial_state` (broadcast to every channel) likewise: `np.diff` of channel `r`. -/
+theorem rms_derivative_multichannel (c : Nat) (blockFn : List α → β) (divFs : ρ → Nat → ρ) (n : Nat) (hn : 0 < n)
+    (init : α) (d : α → α → β) (ann : Ann ρ χ μ) (s : Int) (cs : List (List (Fin c → α))) :
+    (∃ bs, outputs (runStage (rmsStep (fun blk r => blockFn (blk.map (· r))) divFs n) {} (stream ann s cs)) = .ok bs
+      ∧ Contig n s bs ∧ (∀ b ∈ bs, b.ann = { ann with fs := divFs ann.fs n })
+      ∧ ∀ r : Fin c, (outData bs).map (· r) = (blocksOf n (cs.flatten.map (· r))).map blockFn)
+    ∧ (∃ bs, outputs (runStage (derivativeStep (fun _ => init) (fun p x r => d (p r) (x r))) none (stream ann s cs)) = .ok bs
+      ∧ Contig 1 s bs ∧ (∀ b ∈ bs, b.ann = ann)
+      ∧ ∀ r : Fin c, (outData bs).map (· r) = diffs d (init :: cs.flatten.map (· r))) := by
+  refine ⟨?_, ?_⟩
+  · obtain ⟨bs, h1, h2⟩ := rms_chunk_invariant (fun (blk : List (Fin c → α)) r => blockFn (blk.map (· r))) divFs n hn ann s cs
+    refine ⟨bs, h1, h2.contig, h2.ann, fun r => ?_⟩
+    rw [h2.data, blocksOf_map, List.map_map, List.map_map]
+    rfl
+  · obtain ⟨bs, h1, h2⟩ := derivative_chunk_invariant (fun (_ : Fin c) => init) (fun p x r => d (p r) (x r)) ann s cs
+    refine ⟨bs, h1, h2.contig, h2.ann, fun r => ?_⟩
+    rw [h2.data]
+    exact diffs_map_proj d r (fun (_ : Fin c) => init) cs.flatten
+
+/-- `matrix @ column` for a `c' × c` matrix -/
+def matVec {R : Type} [Add R] [Mul R] [Zero R] {c c' : Nat} (M : Fin c' → Fin c → R) (col : Fin c → R) : Fin c' → R :=
+  fun i => (List.finRange c).foldl (fun acc j => acc + M i j * col j) 0
+
+/-- `mc_reference(matrix)` with the shapes spelled out: a `c' × c` matrix, `c`-channel input, `c'`-channel output.
+`matrix @ data` on a `c × n` chunk is the matrix–vector product of every time column, so for every chunking the output
+has as many columns as the input and entry `(i, k)` of the concatenated output is `Σ_j matrix[i, j] · input[j, k]` of
+the whole input; `s0`, rate and metadata are those of the input (`__array_finalize__` also copies the `c` channel
+labels — meaningful for a square matrix, as in the harness) -/
+theorem mc_reference_multichannel {R : Type} [Add R] [Mul R] [Zero R] {c c' : Nat} (M : Fin c' → Fin c → R)
+    (ann : Ann ρ χ μ) (s : Int) (cs : List (List (Fin c → R))) :
+    ∃ bs, outputs (runStage (transformStep (pointwise (matVec M))) () (stream ann s cs)) = .ok bs
+      ∧ Contig 1 s bs ∧ (∀ b ∈ bs, b.ann = ann)
+      ∧ (outData bs).length = cs.flatten.length
+      ∧ ∀ (k : Nat) (h : k < (outData bs).length) (h' : k < cs.flatten.length) (i : Fin c'),
+          (outData bs)[k] i = (List.finRange c).foldl (fun acc j => acc + M i j * cs.flatten[k] j) 0 := by
+  obtain ⟨bs, h1, h2⟩ := mc_reference_chunk_invariant (matVec M) ann s cs
+  refine ⟨bs, h1, h2.contig, h2.ann, by rw [h2.data, List.length_map], ?_⟩
+  intro k h h' i
+  have e : (outData bs)[k] = (cs.flatten.map (matVec M))[k]'(by rw [List.length_map]; exact h') := by
+    congr 1
+    exact h2.data
+  rw [e, List.getElem_map]
+  rfl
+
 /-! ## non-vacuity: concrete streams (chunks shorter than q / block, length not divisible) -/
 
 example : outputs (runStage (blockedStep 2) {} (stream (⟨(), (), ()⟩ : Ann Unit Unit Unit) 6 [[1], [], [2, 3, 4], [5]]))
@@ -625,5 +733,18 @@ example : PData.concat ([(⟨[fun i => 1 + 9 * i.val, fun i => 2 + 18 * i.val], 
         PD (Fin 2 → Nat) Rat _ _),
       ⟨[fun i => 3 + 27 * i.val], 7, ⟨1000, [some "a", none], 0⟩⟩].map toPData2) .time
     = .ok ⟨[2, 3], [1, 2, 3, 10, 20, 30], 5, 1000, .many [some "a", none], .one 0⟩ := by rfl
+
+/-- the 2-channel product of the running-sum machine meets the kernel hypothesis of the multi-channel theorems; a
+re-referencing matrix `[[1, -1], [-1, 1]]` applied to the column `(5, 3)` -/
+example : LfilterIs ((⟨fun s a => (s + a, s + a)⟩ : Mealy Nat Nat Nat).channels 2).run
+    ((⟨fun s a => (s + a, s + a)⟩ : Mealy Nat Nat Nat).channels 2) :=
+  ⟨fun _ _ _ => rfl, fun _ => rfl⟩
+
+example : (((⟨fun s a => (s + a, s + a)⟩ : Mealy Nat Nat Nat).channels 2).run (fun _ => 0)
+    [fun r => 1 + r.val, fun r => 10 + r.val]).1.map (· 1) = [2, 13] := by decide
+
+example : matVec (fun (i j : Fin 2) => if i = j then (1 : Int) else -1) (fun j => if j = 0 then 5 else 3) 0 = 2
+    ∧ matVec (fun (i j : Fin 2) => if i = j then (1 : Int) else -1) (fun j => if j = 0 then 5 else 3) 1 = -2 := by
+  decide
 
 end Psi.Stages
